@@ -133,7 +133,7 @@ def r3_lookup(run, F):
 
 def r4_arms(run, F):
     b = F.body("<alpha::common::Statement as alpha::scoper::label_references::Analyzable>::analyze")
-    m = [x for x in hirq.matches(b["hir"]) if len(x["arms"]) >= 8]
+    m = [x for x in hirq.matches(b["hir"]) if hirq.n_alts(x) >= 8]
     run.require(m, "Statement::analyze match not found")
     for variant, fn in (("Goto", "use_label"), ("Label", "declare_label")):
         arm = hirq.arm_for(m[0], "Statement::" + variant)
@@ -158,7 +158,7 @@ def r4_arms(run, F):
 
 def r5_codes(run, F):
     code = F.body("alpha::error::Error::code")
-    cm = [x for x in hirq.matches(code["hir"]) if len(x["arms"]) > 40][0]
+    cm = [x for x in hirq.matches(code["hir"]) if hirq.n_alts(x) > 40][0]
     rows = {hirq.pat_key(a["pat"]): hirq.unwrap_trivial(a["body"]).get("v") for a in cm["arms"]}
     for v, c in (("Error::UndefinedLabel", 400), ("Error::DuplicateDeclarationLabel", 420)):
         run.ob("R5-CODES", v, rows.get(v) == c, F.where(code), "%s must have code %d (found %s)" % (v, c, rows.get(v)))
@@ -166,7 +166,7 @@ def r5_codes(run, F):
 
 def r6_generator(run, F):
     s = F.body("<alpha::resolved::Statement as alpha::generator::Generatable>::generate")
-    m = [x for x in hirq.matches(s["hir"]) if len(x["arms"]) >= 6]
+    m = [x for x in hirq.matches(s["hir"]) if hirq.n_alts(x) >= 6]
     for variant in ("Goto", "Label"):
         arm = hirq.arm_for(m[0], "Statement::" + variant)
         cs = [hirq.callee(c) for c in hirq.calls(arm[0]["body"])] if arm else []
